@@ -486,6 +486,7 @@ func hpBody(sc *hpScenario, obs *hpObs) {
 	_ = variable.Set(ctx, types.VariableConnectionID, down.ID())
 	obs.Down = down
 	h.gauge0 = hpGauges(h)
+	hpTimeoutBase = hpTimeoutCount(h.cm)
 	p := NewProxy(ctx, &v2.Proxy{DownstreamProtocol: string(bolt.ProtocolName), UpstreamProtocol: string(bolt.ProtocolName), RouterConfigName: hpRouterName}).(*proxy)
 	h.proxy = p
 	down.FilterManager().AddReadFilter(p)
@@ -840,6 +841,20 @@ func hpDeterminism(sc hpScenario) string {
 	return cmp(pre)
 }
 
+// hpTimeoutBase is the cluster's upstream_request_timeout counter at the start of the
+// running execution (the metrics registry outlives executions).
+var hpTimeoutBase int64
+
+func hpTimeoutCount(cm types.ClusterManager) int64 {
+	if cm == nil {
+		return 0
+	}
+	if snap := cm.GetClusterSnapshot(context.Background(), hpCluster); snap != nil {
+		return snap.ClusterInfo().Stats().UpstreamRequestTimeout.Count()
+	}
+	return 0
+}
+
 // hpStuckSignature describes the internal state of a stream that never
 // completed; it names the root cause class in finding keys (scenario-independent).
 func hpStuckSignature(ds *downStream) string {
@@ -848,8 +863,16 @@ func hpStuckSignature(ds *downStream) string {
 	if ds.upstreamRequest != nil {
 		setupRetry = ds.upstreamRequest.setupRetry
 	}
-	return fmt.Sprintf("phase=%s upstreamResponseReceived=%d upstreamReset=%d downstreamReset=%d cleaned=%d directResponse=%v responseStarted=%v upstreamProcessDone=%v setupRetry=%v perTryTimerSet=%v globalTimerSet=%v",
-		types.PhaseName[ds.phase], b(ds.upstreamResponseReceived), b(ds.upstreamReset), b(ds.downstreamReset), b(ds.downstreamCleaned),
+	// timeoutCallbacks: how many per-try / global timer callbacks WON the outcome token in this
+	// execution (each counts itself in upstream_request_timeout before it acts). It separates the
+	// recorded arbitration defects, which all need a timer callback that won and was then swallowed,
+	// from any other way of losing a request (e.g. a lost wake-up with no timer involved).
+	tmo := int64(0)
+	if ds.cluster != nil {
+		tmo = ds.cluster.Stats().UpstreamRequestTimeout.Count() - hpTimeoutBase
+	}
+	return fmt.Sprintf("phase=%s upstreamResponseReceived=%d timeoutCallbacks=%d upstreamReset=%d downstreamReset=%d cleaned=%d directResponse=%v responseStarted=%v upstreamProcessDone=%v setupRetry=%v perTryTimerSet=%v globalTimerSet=%v",
+		types.PhaseName[ds.phase], b(ds.upstreamResponseReceived), tmo, b(ds.upstreamReset), b(ds.downstreamReset), b(ds.downstreamCleaned),
 		ds.directResponse, ds.downstreamResponseStarted, ds.upstreamProcessDone.Load(), setupRetry, ds.perRetryTimer != nil, ds.responseTimer != nil)
 }
 
